@@ -108,6 +108,20 @@ def dup_nested(x1: str, x2: str, x3: str, x4: str, x5: str, p: int, sw: bool) ->
     return _count(_perm3([x1, b, c], p)) == expected
 
 
+def dup_nesting(x1: str, x2: str, x3: str, x4: str, x5: str, p: int) -> bool:
+    """
+    pre: len(x1) == 1 and len(x2) == 1 and len(x3) == 1 and len(x4) == 1 and len(x5) == 1
+    pre: x1 in ALPHA and x2 in ALPHA and x3 in ALPHA and x4 in ALPHA and x5 in ALPHA
+    pre: 0 <= p <= 5
+    pre: _cell3(x1, x2)
+    post: _
+    """
+    # shape  (x1,(x2)), ((x3,x4)), ((x5),x1) in any order: three siblings made of the same kind of tags but nested
+    # differently.  The first and third are the same group iff x2 ~ x5; the middle one never equals either.
+    expected = _b(_l(x2) == _l(x5)) + _b(_l(x3) == _l(x4))
+    return _count(_perm3([[x1, [x2]], [[x3, x4]], [[x5], x1]], p)) == expected
+
+
 def dup_tags(x1: str, x2: str, x3: str, x4: str, p: int) -> bool:
     """
     pre: len(x1) == 1 and len(x2) == 1 and len(x3) == 1 and len(x4) == 1
@@ -174,6 +188,12 @@ HARNESSES = [
                         bound="shape x1,(x2,(x3,x4)),(x5,(x4,x3)), xi in {a,b,A}, 6 outer orders x member swap"),
         what="same as dup_groups one level down", oracle="as dup_groups", stubs=_ST,
         outside="as dup_groups"),
+    R.H("dup_nesting", _TD,
+        quick=R.tier(cells=_CELLS9, timeout=300,
+                     bound="shape (x1,(x2)),((x3,x4)),((x5),x1), xi in {a,b,A}, all 6 sibling orders"),
+        what="groups with the same tags but different nesting are never confused: a repeat is reported iff the two "
+             "equally nested groups have equal members, whatever sits between them",
+        oracle="closed-form count over case-folded letters", stubs=_ST, outside="as dup_groups"),
     R.H("dup_tags", _TD,
         quick=R.tier(cells=R.int_cells("VP_K", 0, 15), timeout=200, bound="shape x1,x2,x3,(x4,x1), xi in {a,b,A,B}, 6 orders of the top-level tags"),
         what="repeated top-level tag reported wherever the copies sit and in whatever letter case",
